@@ -3,6 +3,7 @@ package health
 import (
 	"errors"
 	"net/http"
+	"sync"
 	"sync/atomic"
 	"time"
 
@@ -28,6 +29,11 @@ type CircuitBreaker struct {
 }
 
 type circuitState struct {
+	// mu orders the reports of concurrent checks of one endpoint. Counting a failure, stamping it
+	// and tripping the breaker are several stores; interleaved with a success being recorded they
+	// could leave the breaker open with a cleared count (or closed with a stale one), a state no
+	// order of the two reports produces.
+	mu          sync.Mutex
 	failures    int64
 	lastFailure int64
 	lastAttempt int64
@@ -47,6 +53,9 @@ func (cb *CircuitBreaker) IsOpen(endpointURL string) bool {
 	if !ok {
 		return false
 	}
+
+	state.mu.Lock()
+	defer state.mu.Unlock()
 
 	now := time.Now().UnixNano()
 
@@ -82,6 +91,9 @@ func (cb *CircuitBreaker) RecordSuccess(endpointURL string) {
 		return
 	}
 
+	state.mu.Lock()
+	defer state.mu.Unlock()
+
 	atomic.StoreInt64(&state.failures, 0)
 	atomic.StoreInt32(&state.isOpen, 0)
 	atomic.StoreInt64(&state.lastAttempt, 0)
@@ -89,6 +101,9 @@ func (cb *CircuitBreaker) RecordSuccess(endpointURL string) {
 
 func (cb *CircuitBreaker) RecordFailure(endpointURL string) {
 	state := cb.loadOrCreateState(endpointURL)
+
+	state.mu.Lock()
+	defer state.mu.Unlock()
 
 	failures := atomic.AddInt64(&state.failures, 1)
 	atomic.StoreInt64(&state.lastFailure, time.Now().UnixNano())
